@@ -47,7 +47,8 @@ unsigned tok_extract(const char *from, unsigned sz, char *tag, char *val)
   return 0;
 }
 unsigned short atoi_tag(const char *tag, char term) { return g_cur >= 0 ? g_tag[g_cur] : 0; }
-unsigned atoi_val(const char *val, char term) { return nondet_uint(); }
+unsigned g_val_sz;
+unsigned atoi_val(const char *val, char term) { return g_val_sz; }                  /* the length a Length field declares */
 const struct pres_m *ft_get_presence(const struct pres_m *f) { return f; }
 const struct ft_m *pres_find(const struct pres_m *p, unsigned short key)
 { for (unsigned i = 0; i < 3; ++i) if (i < p->n && p->arr[i]._fnum == key) return &p->arr[i]; return p->arr + p->n; }
@@ -125,9 +126,11 @@ void h_part_length(void)
 {
   struct sv_m from; mk_text(&from); struct FIX8_MessageBase m; mk_part(&m);
   __CPROVER_assume(m._fp.n >= 1 && g_ntok >= 1 && g_tag[0] == m._fp.arr[0]._fnum && m._fp.arr[0]._fnum != 9);
-  m._fp.arr[0]._ftype = K_ft_Length; g_fixed_calls = 0;
+  m._fp.arr[0]._ftype = K_ft_Length; g_fixed_calls = 0; g_val_sz = nondet_uint();
   unsigned r = mb_decode(&m, &from, g_off[0], 0, nondet_bool());
   __CPROVER_assert(__exc || g_fixed_calls <= 1, "C03.decode.at_most_one_data_field_follows_a_length_field");
+  __CPROVER_assert(g_val_sz > 2047u || g_fixed_calls == 1, "C06.decode.every_declared_length_up_to_the_field_limit_reaches_the_data_tokeniser");
+  __CPROVER_assert(g_val_sz <= 2047u || (g_fixed_calls == 0 && __exc), "C06.decode.a_declared_length_beyond_the_field_limit_is_refused");
   VACUITY_PROBE();
 }
 /* permissive mode, one part */
@@ -144,6 +147,28 @@ void h_part_permissive(void)
   VACUITY_PROBE();
 }
 '''
+
+def _split(text):
+    """one copy of each multi-property harness per property: assertion lines are kept only when their label starts with that property's id"""
+    import re
+    out = []
+    for chunk in re.split(r'(?m)^(?=/\* |static |void h_)', text):
+        m = re.search(r'(?m)^void (h_\w+)\(void\)', chunk)
+        props = sorted(set(re.findall(r'__CPROVER_assert\(.*"(C\d\d)\.', chunk)))
+        if not m or len(props) < 2:
+            out.append(chunk)
+            continue
+        for p in props:
+            lines = []
+            for ln in chunk.split('\n'):
+                a = re.search(r'__CPROVER_assert\(.*"(C\d\d)\.', ln)
+                if a and a.group(1) != p:
+                    continue
+                lines.append(ln.replace('void %s(void)' % m.group(1), 'void %s_%s(void)' % (m.group(1), p.lower())))
+            out.append('\n'.join(lines))
+    return ''.join(out)
+
+
 MB = 'FIX8::MessageBase'
 PS = r'FIX8::presorted_set<unsigned short, FIX8::FieldTrait, (FIX8::)?FieldTrait::Compare>'
 UNIT = dict(
@@ -181,10 +206,11 @@ UNIT = dict(
     functions=[
         dict(q=MB + '::decode', sig=None, cname='mb_decode'),
     ],
-    postlude=POST,
+    postlude=_split(POST),
     proofs=[
         dict(name='part_strict', harness='h_part_strict', properties=['C04'], solvers=['cadical', 'z3'], timeout=dict(quick=600, thorough=1800), floor=6, level='bounded', unwind=5, object_bits=10),
-        dict(name='part_length', harness='h_part_length', properties=['C03', 'C06'], solvers=['cadical', 'z3'], timeout=dict(quick=600, thorough=1800), floor=1, level='bounded', unwind=5, object_bits=10),
+        dict(name='part_length_c03', harness='h_part_length_c03', properties=['C03'], solvers=['cadical', 'z3'], timeout=dict(quick=600, thorough=1800), floor=1, level='bounded', unwind=5, object_bits=10),
+        dict(name='part_length_c06', harness='h_part_length_c06', properties=['C06'], solvers=['cadical', 'z3'], timeout=dict(quick=600, thorough=1800), floor=2, level='bounded', unwind=5, object_bits=10),
         dict(name='part_permissive', harness='h_part_permissive', properties=['C05'], solvers=['cadical', 'z3'], timeout=dict(quick=600, thorough=1800), floor=3, level='bounded', unwind=5, object_bits=10),
     ],
     trusted_base=['ASSUMED: the tokeniser hands out the ghost tokens (its safety is K-tok\'s subject); Presence::find / end, trait bit operations, F8MetaCntx::find_be, the field instantiator, '
